@@ -199,13 +199,19 @@ func (s *Recursive) recursiveMatch(ctx context.Context, req *Request, recursiveE
 
 	for id := range idsFromObject {
 		visited.Store(id, true)
-		pool.Go(func() error {
-			s.recursiveMatchResolver(ctx, req, edge, recursiveType, &pool, idsFromUser, visited, id, responsesChan)
-			return nil
-		})
 	}
 
+	// The workers are started from their own goroutine: pool.Go blocks once concurrencyLimit workers are
+	// running, and a worker blocks on responsesChan once it is full, so starting them before the loop below
+	// reads responsesChan deadlocks as soon as more than concurrencyLimit messages (matches or errors) are
+	// produced by the first workers.
 	go func() {
+		for id := range idsFromObject {
+			pool.Go(func() error {
+				s.recursiveMatchResolver(ctx, req, edge, recursiveType, &pool, idsFromUser, visited, id, responsesChan)
+				return nil
+			})
+		}
 		_ = pool.Wait()
 		close(responsesChan)
 	}()
